@@ -495,7 +495,7 @@ func TestVerif_C24_Follower(t *testing.T) {
 	r.Assume("net/local delivers sequential sends in order; a sentinel message from a non-member key (invalid membership) is appended to the pre-phase-end history so that 'all earlier messages were handled' is observable at the membership validator")
 	r.Assume("a valid-seat message from the leader operator's other seat is not returned; whether it is recorded as a fault is left open (the statement does not say)")
 
-	n := r.N(10000, 200000)
+	n := r.N(10000, 400000)
 	workers := runtime.NumCPU()
 	if workers > 16 {
 		workers = 16
@@ -704,6 +704,9 @@ func TestVerif_C24_Follower(t *testing.T) {
 		kindOfTag := func(tag int64) string {
 			if tag == 1000 {
 				return "sentinel(non-member key)"
+			}
+			if tag == -1 {
+				return "some-noop-proposal"
 			}
 			for _, m := range c.History {
 				if m.Tag == tag {
